@@ -147,6 +147,7 @@ def replay_counterexample(pid, h, r):
         msgs = json.loads(body[body.find("["):])
     except Exception:
         res["note"] = "trace run produced no parseable output (rc=%s)" % rc; return res
+    refusal = h.expect.startswith("panic:") and any("refusal" == f.get("property") for f in (r.get("failed") or []))
     vals_list = []; seen = set(); which = []
     for m in msgs:
         if isinstance(m, dict) and "result" in m:
@@ -154,7 +155,9 @@ def replay_counterexample(pid, h, r):
                 if p.get("status") != "FAILURE": continue
                 cls = p.get("property", "").rsplit(".", 2)
                 cls = cls[1] if len(cls) == 3 else ""
-                if cls == "cover": continue
+                if refusal:
+                    if not (cls == "cover" and p.get("description", "").startswith("AFTER")): continue
+                elif cls == "cover": continue
                 vals = extract_vals(p.get("trace", []))
                 key = json.dumps(vals)
                 if key in seen: continue
@@ -188,6 +191,11 @@ def replay_counterexample(pid, h, r):
     if not ran:
         res["note"] = "native playback build/run failed (rc=%s), see %s" % (rc, os.path.join(rundir, "playback_dev.log")); return res
     out_of_vals = [p for p in panics if "concrete_playback.rs" in p[0] or "Not enough det vals" in p[1]]
+    if refusal:
+        # the harness expects a refusal (panic): the violation is reproduced when the native run RETURNS normally
+        res["reproduced"] = len(failed) < len(vals_list)
+        res["note"] = "refusal harness: native run returned without panicking" if res["reproduced"] else "native run refuses (panics) as expected"
+        return res
     res["reproduced"] = len(failed) > 0 and len(out_of_vals) < len(failed)
     if res["reproduced"]:
         ran2, failed2, panics2, rc2 = run_native(modfile, src, "kani_concrete_playback_" + h.name + "_", True, os.path.join(rundir, "playback_release.log"))
